@@ -49,6 +49,41 @@ CLAIMS = {
    note=PROOF_NOTE + "Stack exhaustion depends on the platform stack size (the worker exhibits aborts; the model bounds depth). Addr::try_from_bytes is covered by the direct oracle only (std parse::<u16>/from_utf8 are not modelled). Filter well-formedness after from_json is covered by correspondence, not yet by a theorem.",
    technique="Lean 4 proof (totality by induction on fuel/structure; invariant over the member loop) + direct no-panic/guard-byte oracle in two build modes + differential correspondence",
    design="6/C03"),
+ 'C01': dict(
+   text="Lean theorems (all inputs): whatever text Event::from_json accepts, the bytes written are exactly the encoding of an event whose seven "
+        "parts are within their fields and which every accessor reads back; consumed <= input; integer literals are read exactly and "
+        "created_at >= 2^64 / kind > 65535 with any number of digits are rejected, never wrapped. The completeness direction (every NIP-01 text - "
+        "any member order, whitespace, escapes, unknown members - is accepted with the independent parser's values, consumed = offset past the "
+        "brace) is decided by correspondence: CST-generated texts, Python json as the independent parser on text[:consumed], implementation vs model "
+        "on whole buffers; all 5040 orders in the thorough tier.",
+   note=PROOF_NOTE + "PARTIAL: parseEvent_complete (acceptance of every NIP-01 text) is not proved; it rests on the sampled correspondence. Duplicate known keys / escaped spellings of known keys are outside the soundness clause (RFC 8259 s.4).",
+   technique="Lean 4 proof (member-loop invariant, decimal-literal reader lemmas) + differential correspondence with Python json as independent parser",
+   design="6/C01"),
+ 'C02': dict(
+   text="Lean theorems: for every accepted text and every prior buffer content, Event::from_json writes exactly the bytes Event::from_parts writes "
+        "from the decoded values (from_json_is_from_parts), so two accepted texts that decode to the same seven values give byte-identical "
+        "events whatever the buffers held (canonical_any_buffer). Correspondence + direct oracle: from_parts -> as_json -> Python json (same seven "
+        "values) -> from_json into dirty buffers, plus 4 alternative renderings per event, all byte-identical to from_parts.",
+   note=PROOF_NOTE + "PARTIAL: that as_json of every UTF-8 event re-parses to the same values (unescape after escape) rests on the correspondence, not on a theorem.",
+   technique="Lean 4 proof (parse well-formedness + decode-after-encode) + differential correspondence with Python json",
+   design="6/C02"),
+ 'C07': dict(
+   text="Lean theorems: the filter parser is total; since/until literals are read exactly and rejected from 2^64 up; every stored kind is < 65536; a "
+        "repeated tag letter is rejected wherever the first occurrence was. Faithfulness, order independence and the as_json round trip are decided "
+        "by correspondence: CST filter texts vs Python json, member permutations (same acceptance and meaning, also for ill-formed member lists), "
+        "all 52x52 ordered letter pairs exhaustively, integer boundaries, parse(as_json(f)) byte-identical.",
+   note=PROOF_NOTE + "PARTIAL: parseFilter_complete / order independence as theorems are not proved; they rest on the correspondence (exhaustive over letter pairs, sampled elsewhere).",
+   technique="Lean 4 proof (reader lemmas, duplicate detection) + differential correspondence with Python json; exhaustive letter-pair enumeration",
+   design="6/C07"),
+ 'C08': dict(
+   text="Lean theorems with SHA-256 (H) and BIP-340 verification (SV) as parameters: verify succeeds iff id = H(canon e) and SV pubkey id sig; every event "
+        "of the signing constructor verifies for any signer whose signatures verify; a changed id is always rejected; a change that alters the canonical "
+        "serialization is rejected given H is collision-free on the two serializations. Correspondence: events over every character class signed by "
+        "the real sign_new must verify, their id must equal hashlib.sha256 of the MODEL's canonical serialization, and every single-field mutant "
+        "(bits of id/pubkey/sig, created_at, kind, tag strings, tag structure, content) must fail the real verify.",
+   note=PROOF_NOTE + "PARTIAL: SHA-256 and BIP-340 are trusted (secp256k1); injectivity of the canonical serialization is checked by mutation, not proved.",
+   technique="Lean 4 proof (parametric in hash and signature scheme) + differential correspondence with hashlib.sha256 and mutation testing of the real verify",
+   design="6/C08"),
 }
 
 checks = []
